@@ -28,6 +28,7 @@ type NodeJ struct {
 	Attrs []Attr   `json:"attrs,omitempty"`
 	Ins   []string `json:"ins"`
 	Outs  []string `json:"outs"`
+	Name  string   `json:"name,omitempty"`
 }
 
 // VInfoJ declares a graph input. Dims entries: number = fixed size (0 = unspecified), string = symbolic.
@@ -94,7 +95,18 @@ func buildModelProto(g *GraphJ) *onnx.ModelProto {
 	}
 	gp := &onnx.GraphProto{Name: "g"}
 	for _, n := range g.Nodes {
-		gp.Node = append(gp.Node, mkNode(n.Op, n.Attrs, n.Ins, n.Outs))
+		np := mkNode(n.Op, n.Attrs, n.Ins, n.Outs)
+		// node names are optional in ONNX and need not be unique: unnamed nodes, nodes that share one name
+		// (also across operator types) and uniquely named nodes occur in every generated graph
+		switch {
+		case n.Name != "":
+			np.Name = n.Name
+		case len(gp.Node)%4 == 1 || len(gp.Node)%4 == 3:
+			np.Name = "node"
+		case len(gp.Node)%4 == 2:
+			np.Name = fmt.Sprintf("%s_%d", n.Op, len(gp.Node))
+		}
+		gp.Node = append(gp.Node, np)
 	}
 	for _, v := range g.Inputs {
 		gp.Input = append(gp.Input, mkValueInfo(v))
